@@ -30,6 +30,18 @@ func escapeTemplate(tmpl *Template, node parse.Node, name string) error {
 	} else if c.state != stateText {
 		err = &Error{ErrEndContext, nil, name, 0, fmt.Sprintf("ends in a non-text context: %+v", c)}
 	}
+	if err != nil && c.err == nil {
+		// The body was escaped without problems; the template only cannot stand on its own
+		// because it ends in the middle of a tag, an attribute or a special element. Other
+		// templates may call it, and some may already have been executed with it, so its
+		// tree and the record of its analysis stay in place, with the edits applied. Executing
+		// the template itself keeps failing because of escapeErr.
+		tmpl.esc.commit()
+		if t := tmpl.set[name]; t != nil {
+			t.escapeErr = err
+		}
+		return err
+	}
 	if err != nil {
 		// Prevent execution of unsafe templates.
 		if t := tmpl.set[name]; t != nil {
